@@ -794,6 +794,7 @@ def run_G(pid, tier, seed):
         if any(debug):
             stats["with_debug_nodes"] += 1
         # selections
+        stored_setups = {}       # setup values earlier executors computed on the instance `d` (kept for some of the runs)
         for j in range(B["g_sels"]):
             dbg = rng.random() < 0.5 if pid != "C12" else rng.random() < 0.2
             R, X, T, resolve = choose_selection(rng, sc, pos, preds)
@@ -898,8 +899,12 @@ def run_G(pid, tier, seed):
                 # ---- run it: returned values and execution counters (C12 / C13)
                 if pid in ("C12", "C13") and ex is not None and j < 3:
                     stats["exec_runs"] += 1
-                    _check_values(pid, sc, d, ex, ids_, pos, preds, got, ("g", k), bad, case)
-                    d, _nodes = G.build(sc, inst=("g", k))   # fresh instance (setup state)
+                    _check_values(pid, sc, d, ex, ids_, pos, preds, got, ("g", k), bad, case, stored=stored_setups)
+                    if stored_setups and rng.random() < 0.5:
+                        stats["executors_on_an_instance_with_a_past"] = stats.get("executors_on_an_instance_with_a_past", 0) + 1
+                    else:
+                        d, _nodes = G.build(sc, inst=("g", k))   # fresh instance (no setup state)
+                        stored_setups = {}
             elif real[0] == "VALUEERROR":
                 stats["valueerrors"] += 1
         G.set_debug(False)
@@ -1041,19 +1046,24 @@ def _unique_order(sc):
     return order
 
 
-def _check_values(pid, sc, d, ex, ids_, pos, preds, got, inst, bad, case):
-    """Run the executor: returned tuple = real values for executed nodes, None otherwise; each executed
-    node entered exactly once, nothing else entered."""
+def _check_values(pid, sc, d, ex, ids_, pos, preds, got, inst, bad, case, stored=None):
+    """Run the executor: returned tuple = real values for executed nodes and for setup nodes an EARLIER run on this
+    instance computed (`stored`), None otherwise; each executed node that was not computed before is entered exactly
+    once, nothing else is entered."""
     n = sc["n"]
+    stored = {} if stored is None else stored
     before = dict(G.COUNTS)
     try:
         ret = G.call(d, ex)
     except BaseException as e:  # noqa: BLE001
         bad("executor-run-raised", sc, case=case, exc=type(e).__name__, message=str(e)[:200])
         return
-    executed = {i for i in range(n) if pos["n%d" % i] in got}
+    executed = {i for i in range(n) if pos["n%d" % i] in got and i not in stored}
     vals = []
     for i, s in enumerate(sc["specs"]):
+        if i in stored:
+            vals.append(stored[i])
+            continue
         if i not in executed:
             vals.append(None)
             continue
@@ -1068,7 +1078,10 @@ def _check_values(pid, sc, d, ex, ids_, pos, preds, got, inst, bad, case):
         c = G.COUNTS.get((inst, i), 0) - before.get((inst, i), 0)
         want = 1 if i in executed else 0
         if c != want:
-            bad("wrong-execution-count", sc, case=case, node=i, got=c, want=want)
+            bad("wrong-execution-count", sc, case=case, node=i, got=c, want=want, computed_before=sorted(stored))
+    for i in executed:
+        if sc["specs"][i]["setup"]:
+            stored[i] = vals[i]
 
 
 ASSUME_G = [
@@ -1687,7 +1700,13 @@ def run_V_and_composed_flags(pid, tier, seed):
                                            indexed_flag_inputs=covc.get("indexed_flag_inputs", 0))
     cov["evaluations"] += covc.get("with_flag_input", 0)
     cov["rule"] += "; plus: compositions (slice C) of DAGs whose nodes carry whole / indexed flags, flag producers made inputs"
-    return cov, fs + keep, searcher
+    # flags under the scheduler slice too: executors with target / exclude / root selections, setup() runs, reconfigured,
+    # nested and hand-built DAGs — a node whose flag is falsy never starts, whatever path the run takes
+    covs, fss, _s = run_S(pid, tier, seed)
+    cov["scheduler_scenarios_with_flags"] = dict(scenarios=covs.get("evaluations", 0), distinct_nontrivial=covs.get("distinct_nontrivial", 0))
+    cov["evaluations"] += covs.get("evaluations", 0)
+    cov["rule"] += "; plus: the scheduler scenarios (selections, setup runs, reconfiguration, nesting) judged by the C10 monitor"
+    return cov, fs + keep + [f for f in fss if f.kind == "counterexample"], searcher
 
 
 PROPS["C10"]["run"] = run_V_and_composed_flags
